@@ -112,8 +112,8 @@ def rule_panics(ctx, res, scope_rx=None):
             n_rev += 1
             used.add(hit)
             res.ok('PANIC', st['body'], 'reviewed: %s -- %s' % (st['desc'][:90], REVIEWED[hit][2][:110]), site=st['sp'])
-    res.check(n_auto >= 40, 'PANIC', 'crate', 'constant-operand checks evaluated (%d) ' % n_auto, detail=str(n_auto), key='auto-floor')
-    res.check(n_rev >= 100, 'PANIC', 'crate', 'reviewed panic-capable sites matched (%d), derive-generated (%d)' % (n_rev, n_der), detail=str(n_rev), key='reviewed-floor')
+    res.check(n_auto >= 30, 'PANIC', 'crate', 'constant-operand checks evaluated (%d) ' % n_auto, detail=str(n_auto), key='auto-floor')
+    res.check(n_rev >= 80, 'PANIC', 'crate', 'reviewed panic-capable sites matched (%d), derive-generated (%d)' % (n_rev, n_der), detail=str(n_rev), key='reviewed-floor')
     stale = [REVIEWED[k][1] for k in range(len(REVIEWED)) if k not in used]
     return stale
 
@@ -235,7 +235,7 @@ def rule_alloc(ctx, res):
             if re.match(r'^\d+$', size):
                 good = int(size) <= 65536
             res.check(good, 'ALLOC', b.path, 'sized allocation %s takes a constant, an existing length or the decoder size hint' % panics.short(p), site=t['sp'], detail=str(args), key='alloc:%s:%s' % (panics.short(p), size))
-    res.check(n >= 6, 'ALLOC', 'crate', 'sized allocation sites found (floor 6)', detail=str(n))
+    res.check(n >= 3, 'ALLOC', 'crate', 'sized allocation sites found (floor 3)', detail=str(n))
     buf = [t for b in [ctx.co('socket::Socket::recv')] for i, t in b.calls() if (lib.callee_path(t) or '').endswith('vec::from_elem')]
     res.check(len(buf) == 1 and buf[0]['args'][1].get('int') == 1500, 'CONST', 'socket::Socket::recv', 'the receive buffer is 1500 bytes: every decoded input is at most 1500 bytes')
 
